@@ -1,5 +1,6 @@
 """C15 Malicious-mode OT extension detects a deviating receiver."""
 import hashlib
+import json
 import re
 
 import vlib
@@ -27,52 +28,78 @@ def squash(s):
     return re.sub(r"\s+", "", s or "")
 
 
+IO_METHODS = ["SendByte", "SendUint32", "SendData", "SendLabel", "Flush",
+              "ReceiveByte", "ReceiveUint32", "ReceiveData", "ReceiveLabel"]
+CHECK_FUNCS = ["NewLabel", "newPrg", "prgLabels", "vectorInnPrdtSumNoRed", "mul128"]
+
+
 def source_facts(ctx):
-    """Shape of the code the models hard-code, read from the current source."""
+    """Shape of the code the models hard-code, read from the current source.
+
+    FACTS (obligations) are semantic abstractions: named constants resolved to
+    values and same-package helpers followed (harness mode `c15 consts`), and
+    the message grammar as the source-order sequence of ot.IO calls with
+    receivers named by declared type and helpers inlined (gofacts callseq).
+    Everything that is a purely textual expectation AND whose semantic content
+    is decided by a correspondence or the oracle of this check is ADVISORY: a
+    drift only widens the search."""
+    # --- semantic: sizes, resolved to values through named constants and helpers
+    sizes = None
+    if ctx.hx:
+        rc, out = vlib.sh([ctx.hx, "consts", "-repo", vlib.REPO], timeout=120)
+        try:
+            sizes = json.loads(out.strip().split("\n")[-1]) if rc == 0 else "c15 consts failed: " + out[-300:]
+        except ValueError:
+            sizes = "c15 consts: unparsable output " + out[-200:]
+    if isinstance(sizes, dict):
+        ctx.fact("malicious mode: the check batch has 256 rows on both sides (constant arguments of send(..) reached from "
+                 "IKNPSender.Send / sizes of the bool and Label vectors made in IKNPReceiver.Receive, named constants resolved)",
+                 {"send": sizes["Send"]["send_args"], "receive": sizes["Receive"]["make_sizes"]},
+                 {"send": [256], "receive": [256]})
+        # the block size of the challenge loop does not influence any value (the
+        # stream is read consecutively): advisory
+        ctx.advise("challenge coefficients are generated in blocks of 1024 labels on both sides",
+                   {"send": 1024 in sizes["Send"]["label_arrays"], "receive": 1024 in sizes["Receive"]["label_arrays"]},
+                   {"send": True, "receive": True})
+    else:
+        ctx.fact("malicious mode: sizes of the check batch can be read from the source", sizes, "a JSON object")
+    # --- semantic: message grammar (order and kind of the ot.IO calls, helpers inlined)
+    ctx.fact("IKNPSender.Send reads data chunks (payload batch, check batch), then four labels, and sends nothing",
+             ctx.callseq("ot", "IKNPSender.Send", methods=IO_METHODS),
+             ["IO.ReceiveData", "IO.ReceiveData", "IO.ReceiveLabel", "IO.ReceiveLabel", "IO.ReceiveLabel", "IO.ReceiveLabel"])
+    ctx.fact("IKNPReceiver.Receive sends payload chunks, flushes, check chunks, flushes, the seed, flushes, three labels, flushes",
+             ctx.callseq("ot", "IKNPReceiver.Receive", methods=IO_METHODS),
+             ["IO.SendData", "IO.Flush", "IO.SendData", "IO.Flush", "IO.SendLabel", "IO.Flush", "IO.SendLabel", "IO.SendLabel",
+              "IO.SendLabel", "IO.Flush"])
+    # --- advisory: structure of the computation (decided by the session correspondence: response bytes,
+    #     outputs and the outcome of every enumerated alteration are compared with the model)
+    ctx.advise("IKNPSender.Send: challenge stream, [coefficients, inner product] for payload then check batch, x*Delta",
+               ctx.callseq("ot", "IKNPSender.Send", methods=[], funcs=CHECK_FUNCS),
+               ["func.newPrg", "func.prgLabels", "func.vectorInnPrdtSumNoRed", "func.prgLabels",
+                "func.vectorInnPrdtSumNoRed", "func.mul128"])
+    ctx.advise("IKNPReceiver.Receive: three random labels (b0, b1, seed2), challenge stream, [coefficients, inner product] "
+               "for payload then check batch",
+               ctx.callseq("ot", "IKNPReceiver.Receive", methods=[], funcs=CHECK_FUNCS),
+               ["func.NewLabel", "func.NewLabel", "func.NewLabel", "func.newPrg", "func.prgLabels",
+                "func.vectorInnPrdtSumNoRed", "func.prgLabels", "func.vectorInnPrdtSumNoRed"])
     iknp = vlib.strip_go_comments(vlib.repo_file("ot/iknp.go"))
-    send = vlib.strip_go_comments(vlib.go_func_body("ot/iknp.go", r"\(s \*IKNPSender\) Send\(") or "")
-    recv = vlib.strip_go_comments(vlib.go_func_body("ot/iknp.go", r"\(r \*IKNPReceiver\) Receive\(") or "")
-    ctx.fact("Send(n, true): check batch of 256 rows, challenge blocks of 1024 labels",
-             {"send256": len(re.findall(r"s\.send\(256\)", send)), "chi1024": len(re.findall(r"var chi \[1024\]Label", send)),
-              "recv_chi1024": len(re.findall(r"var chi \[1024\]Label", recv)),
-              "recv256": len(re.findall(r"make\(\[\](?:bool|Label), 256\)", recv))},
-             {"send256": 1, "chi1024": 1, "recv_chi1024": 1, "recv256": 2})
-    ctx.fact("Send(n, true): the acceptance test compares both halves of the unreduced product",
-             bool(re.search(r"r0, r1 = mul128\(x, s\.Delta\)\s*q0\.Xor\(r0\)\s*q1\.Xor\(r1\)\s*"
-                            r"if !q0\.Equal\(t0\) \|\| !q1\.Equal\(t1\) \{\s*return nil, fmt\.Errorf\(", send)), True)
-    ctx.fact("Send(n, true): message order send(n), send(256), seed2, [sums], x, t0, t1",
-             [m for m in re.findall(r"s\.send\(n\)|s\.send\(256\)|ReceiveLabel\(&(\w+),", send)],
-             ["", "", "seed2", "x", "t0", "t1"])
-    m = re.search(r"for i := 0; i < len\(result\); i \+= len\(chi\) \{.*?\n\t\}\n(.*?)var x, t0, t1 Label", send, flags=re.S)
-    ctx.fact("Send(n, true): sums over the payload in blocks, then the check batch",
-             squash(m.group(0) if m else ""),
-             squash("""for i := 0; i < len(result); i += len(chi) {
-                count := len(result) - i
-                if count > len(chi) { count = len(chi) }
-                prgLabels(chiPrg, chi[:count])
-                r0, r1 := vectorInnPrdtSumNoRed(chi[:count], result[i:])
-                q0.Xor(r0)
-                q1.Xor(r1)
-             }
-             prgLabels(chiPrg, chi[:len(choiceVector)])
-             r0, r1 := vectorInnPrdtSumNoRed(chi[:len(choiceVector)], choiceVector)
-             q0.Xor(r0)
-             q1.Xor(r1)
-             var x, t0, t1 Label"""))
-    ctx.fact("Receive(.., true): select1 is the all-ones label, response order seed2 / x, t0, t1",
-             {"select1": bool(re.search(r"select1 := Label\{\s*D0: 0xffffffffffffffff,\s*D1: 0xffffffffffffffff,\s*\}", recv)),
-              "order": re.findall(r"SendLabel\((\w+),", recv)},
-             {"select1": True, "order": ["seed2", "x", "t0", "t1"]})
-    ctx.fact("prgLabels reads 16 bytes per label from the stream",
-             squash(vlib.strip_go_comments(vlib.go_func_body("ot/iknp.go", r"prgLabels\(") or "")),
-             squash("""func prgLabels(c cipher.Stream, labels []Label) {
+    ctx.advise("the acceptance test compares both halves of the unreduced product (oracle: every accepted alteration is judged)",
+               bool(re.search(r"!\w+\.Equal\(\w+\) \|\| !\w+\.Equal\(\w+\)", iknp)), True)
+    ctx.advise("select1 is the all-ones label (correspondence: the response label x)",
+               bool(re.search(r"select1 := Label\{\s*D0: 0xffffffffffffffff,\s*D1: 0xffffffffffffffff,\s*\}", iknp)), True)
+    ctx.advise("prgLabels reads 16 bytes per label from the stream (correspondence: response bytes; oracle: alterations in every "
+               "row class)",
+               squash(vlib.strip_go_comments(vlib.go_func_body("ot/iknp.go", r"prgLabels\(") or "")),
+               squash("""func prgLabels(c cipher.Stream, labels []Label) {
                 var buf [16]byte
                 for i := range labels { prg(c, buf[:])
  labels[i].SetBytes(buf[:]) } }"""))
+    # --- advisory: carry-less multiplication sources (decided by the mul/clmul/inner correspondence of the REAL
+    #     functions, whichever implementation the build dispatches to, and the in-process oracle asm = generic = ref)
     gf = vlib.strip_go_comments(vlib.go_func_body("ot/gf128.go", r"vectorInnPrdtSumNoRed\(") or "")
-    ctx.fact("vectorInnPrdtSumNoRed: XOR of mul128(a[i], b[i]) over min(len(a), len(b))",
-             squash(gf),
-             squash("""func vectorInnPrdtSumNoRed(a, b []Label) (Label, Label) {
+    ctx.advise("vectorInnPrdtSumNoRed: XOR of mul128(a[i], b[i]) over min(len(a), len(b))",
+               squash(gf),
+               squash("""func vectorInnPrdtSumNoRed(a, b []Label) (Label, Label) {
                 var r1, r2 Label
                 n := len(a)
                 if n > len(b) { n = len(b) }
@@ -81,20 +108,21 @@ def source_facts(ctx):
  r2.Xor(hi) }
                 return r1, r2 }"""))
     gen = vlib.strip_go_comments(vlib.repo_file("ot/mul128_generic.go"))
-    ctx.fact("mul128_generic.go: clmul64 / mul128Generic as modelled (Model/Clmul.lean)",
-             hashlib.sha256(squash(gen[gen.find("package ot"):]).encode()).hexdigest()[:16], "cc31b6e5f854459a")
-    ctx.fact("mul128 dispatch: generic unless amd64 && gc, where it is the CLMUL assembly",
-             {"generic_tag": bool(re.search(r"//go:build !amd64 \|\| !gc", vlib.repo_file("ot/mul128.go"))),
-              "generic_body": bool(re.search(r"return mul128Generic\(a, b\)", vlib.repo_file("ot/mul128.go"))),
-              "asm_tag": bool(re.search(r"//go:build amd64 && gc", vlib.repo_file("ot/mul128_amd64.go"))),
-              "asm_call": bool(re.search(r"mul128CLMUL\(&a, &b, &lo, &hi\)", vlib.repo_file("ot/mul128_amd64.go")))},
-             {"generic_tag": True, "generic_body": True, "asm_tag": True, "asm_call": True})
+    ctx.advise("mul128_generic.go: clmul64 / mul128Generic text as modelled (Model/Clmul.lean)",
+               hashlib.sha256(squash(gen[gen.find("package ot"):]).encode()).hexdigest()[:16], "cc31b6e5f854459a")
+    ctx.advise("mul128 dispatch: generic unless amd64 && gc, where it is the CLMUL assembly",
+               {"generic_tag": bool(re.search(r"//go:build !amd64 \|\| !gc", vlib.repo_file("ot/mul128.go"))),
+                "generic_body": bool(re.search(r"return mul128Generic\(a, b\)", vlib.repo_file("ot/mul128.go"))),
+                "asm_tag": bool(re.search(r"//go:build amd64 && gc", vlib.repo_file("ot/mul128_amd64.go"))),
+                "asm_call": bool(re.search(r"mul128CLMUL\(&a, &b, &lo, &hi\)", vlib.repo_file("ot/mul128_amd64.go")))},
+               {"generic_tag": True, "generic_body": True, "asm_tag": True, "asm_call": True})
     asm = re.sub(r"//.*", "", vlib.repo_file("ot/mul128_amd64.s"))
-    ctx.fact("mul128_amd64.s: identity byte shuffle, three PCLMULQDQ ($0x00, $0x11, $0x00), 8-byte lane shifts",
-             {"mask": re.findall(r"\$0x[0-9a-f]{16}", asm), "clmul": re.findall(r"PCLMULQDQ (\$0x\d\d)", asm),
-              "shifts": re.findall(r"(PS[LR]LDQ \$8)", asm)},
-             {"mask": ["$0x0706050403020100", "$0x0f0e0d0c0b0a0908"], "clmul": ["$0x00", "$0x11", "$0x00"],
-              "shifts": ["PSRLDQ $8", "PSRLDQ $8", "PSLLDQ $8", "PSRLDQ $8"]})
+    ctx.advise("mul128_amd64.s: identity byte shuffle, three PCLMULQDQ ($0x00, $0x11, $0x00), 8-byte lane shifts "
+               "(the algorithm of C15_clmul_asm_algorithm)",
+               {"mask": re.findall(r"\$0x[0-9a-f]{16}", asm), "clmul": re.findall(r"PCLMULQDQ (\$0x\d\d)", asm),
+                "shifts": re.findall(r"(PS[LR]LDQ \$8)", asm)},
+               {"mask": ["$0x0706050403020100", "$0x0f0e0d0c0b0a0908"], "clmul": ["$0x00", "$0x11", "$0x00"],
+                "shifts": ["PSRLDQ $8", "PSRLDQ $8", "PSLLDQ $8", "PSRLDQ $8"]})
 
 
 def count_ops(ctx, ops):
@@ -117,7 +145,6 @@ def run(ctx):
     if ctx.tier == "thorough":
         ctx.leanchecker("MpcVerif.Props.C15")
     ctx.build_drv()
-    source_facts(ctx)
     quick = ctx.tier == "quick"
     # carry-less multiplication through the hook file ot/verif_export_c15.go
     hxmul = ctx.build_hx(cmd="c15mul")
@@ -128,7 +155,9 @@ def run(ctx):
                        ops, out)
         count_ops(ctx, ops)
     # sessions and fault enumeration (no hook needed)
-    if ctx.build_hx(cmd="c15"):
+    have_hx = ctx.build_hx(cmd="c15")
+    source_facts(ctx)
+    if have_hx:
         seeds = [ctx.seed] if quick else [ctx.seed, ctx.seed + 1000]
         for s in seeds:
             ops, out, meta = ctx.run_hx("sess", 700 if quick else 1500, seed=s, timeout=2400)
@@ -156,10 +185,16 @@ def run(ctx):
                    c.get("honest_sessions_ok", 0) == c.get("sessions", -1) and c.get("outcome_none_A", 0) == 0,
                    "sessions=%s ok=%s honest replays aborted=%s" % (c.get("sessions"), c.get("honest_sessions_ok"),
                                                                      c.get("outcome_none_A", 0)))
+        ctx.oblige("on the wire: payload chunks of ceil(n/8)*8 rows, a check batch of exactly 256 rows, four labels (every session)",
+                   c.get("wire_shape_ok", 0) == c.get("honest_sessions_ok", -1) and c.get("honest_sessions_ok", 0) > 0,
+                   "completed sessions=%s with the expected shape=%s" % (c.get("honest_sessions_ok"), c.get("wire_shape_ok", 0)))
         ctx.coverage["selected_column_alterations_accepted_outside_known_class"] = \
             c.get("faults_selected_column_ok", 0) - c.get("adaptive_accepted", 0)
         ctx.coverage["exhaustive_positions_n_le_9"] = not quick
-        if ctx.broken and not [f for f in ctx.fails if not ctx.is_known(f)]:
+        # ctx.widen (broken obligation or drifted advisory, no failing input yet) - except that the known
+        # finding of this property is always among ctx.fails and must not suppress the widened search
+        drifted = any(a["drifted"] for a in ctx.advisories)
+        if (ctx.broken or drifted) and not [f for f in ctx.fails if not ctx.is_known(f)]:
             # widened search for a concrete failing input (oracle only)
             for s in range(ctx.seed + 7000, ctx.seed + 7003):
                 ops, out, meta = ctx.run_hx("sess", 3000, seed=s, tag="-widen", timeout=2400)
